@@ -501,9 +501,9 @@ def check(run):
     run.rule("R11.4", "the rounding/modulo family is const-only, in no other table, and dispatched through the raising caster", floor=25)
     run.rule("R11.6", "ufunc metaclasses: out=<Tensor> route == general route (same op, operands, keywords, constant)", floor=3)
     run.rule("R11.5", "__array_ufunc__/__array_function__ consult the differentiable registry first and forward every argument", floor=5)
-    r11_1(run)
-    r11_2(run)
+    run.do(r11_1)
+    run.do(r11_2)
     reg = r11_3(run)
-    r11_4(run, reg)
-    r11_5(run)
-    r11_6(run)
+    run.do(r11_4, reg)
+    run.do(r11_5)
+    run.do(r11_6)
